@@ -1,4 +1,4 @@
-import SciVerif.Lemmas.C19j
+import SciVerif.Lemmas.C19q
 
 /-!
 # C19 — Exported configuration files carry the same values as the environment
@@ -170,6 +170,64 @@ example : let p : Param := ⟨cs!"box.names", .str, 0,
       ((lineRust true p).bind readRustLine).isSome = true := by
   refine ⟨by decide, by simp [ValOK, ValsOK, ScalarOK], by decide, by decide, by decide, by decide⟩
 
+/-! ## Fortran modules -/
+
+/-- full statement: every Fortran module reads back as the expected symbols.  FALSE on the code as it
+    is (`C19_roundtrip_fortran_counterexample`): the three known findings `fortran:real-literal-kind`,
+    `fortran:int-literal-kind`, `fortran:unsigned`. -/
+def C19_roundtrip_fortran_statement : Prop :=
+  ∀ (modname : Str) (ren : Bool) (data : List Param), clean modname = true →
+    (∀ p ∈ data, (∀ ch ∈ rename ren p.name, ch ≠ ' ') ∧ clean (rename ren p.name) = true ∧
+      ValOK p.kind p.value ∧ NoNL p.value ∧ ∃ sh, rectShape p.value = some sh ∧ 0 ∉ sh) →
+    (exportFortran modname ren data).bind (readFortran modname) = expected bFortran ren [] data
+
+theorem C19_roundtrip_fortran_counterexample : ¬ C19_roundtrip_fortran_statement := by
+  intro h
+  have := h (cs!"m") true [⟨cs!"e", .float, 64, .leaf (.f (cs!"0.1")), none, []⟩] (by decide) (by
+    intro p hp
+    simp only [List.mem_singleton] at hp
+    subst hp
+    exact ⟨by decide, by decide, ⟨rfl, by decide, by decide⟩, trivial, ⟨[], by decide, by decide⟩⟩)
+  have := congrArg (Option.map (List.map Sym.narrow)) this
+  revert this
+  decide +kernel
+
+/-- **Fortran, the kinds it carries** (`fortranGuard` = logical, character, integers whose literals fit
+    the default and the declared kind, default-kind reals; the weakest decidable guard that excludes
+    exactly the three findings): for every list of such parameters — scalars, one-dimensional arrays
+    `[…]`, arrays of any rank >= 2 as `reshape([…],[dims],order=[k,…,1])`, string arrays with the typed
+    constructor `[character(len=n) :: …]`, any string content without newline — reading the whole
+    exported module (module frame, line splitting, the three declaration forms, doubled quotes,
+    column-major `reshape` with the explicit order) gives exactly the expected symbols -/
+theorem C19_roundtrip_fortran_partial (modname : Str) (hm : clean modname = true) (ren : Bool) (data : List Param)
+    (hok : ∀ p ∈ data, ParamOKF ren p) :
+    (exportFortran modname ren data).bind (readFortran modname) = expected bFortran ren [] data :=
+  readFortran_exportFortran modname hm ren data hok
+
+/-- one declaration line -/
+theorem C19_roundtrip_fortran_line_partial (ren : Bool) (p : Param) (sh : List Nat)
+    (hn : ∀ ch ∈ rename ren p.name, ch ≠ ' ') (hv : ValOK p.kind p.value)
+    (hr : rectShape p.value = some sh) (h0 : 0 ∉ sh) (hg : fortranGuard p = true) :
+    (lineFortran ren p).bind readFortranLine = expectedSym bFortran ren false p :=
+  readFortranLine_lineFortran ren p sh hn hv hr h0 hg
+
+example : let data : List Param := [
+      ⟨cs!"names", .str, 0, .arr [.leaf (.s (cs!"a \"b\" µ")), .leaf (.s (cs!"c"))], none, []⟩,
+      ⟨cs!"flag", .bool, 0, .leaf (.b true), none, []⟩,
+      ⟨cs!"half", .float, 32, .arr [.leaf (.f (cs!"0.5")), .leaf (.f (cs!"1.5"))], some (cs!"cm"), []⟩,
+      ⟨cs!"tensor", .int, 32, .arr [.arr [.arr [.leaf (.i 1), .leaf (.i 2)], .arr [.leaf (.i 3), .leaf (.i (-4))]]], none, []⟩]
+    (∀ p ∈ data, ParamOKF true p) ∧
+      ((exportFortran (cs!"ConfigurationModule") true data).bind (readFortran (cs!"ConfigurationModule"))).isSome = true := by
+  intro data
+  refine ⟨?_, by decide +kernel⟩
+  intro p hp
+  simp only [data, List.mem_cons, List.mem_nil_iff, or_false] at hp
+  rcases hp with rfl | rfl | rfl | rfl
+  · exact ⟨by decide, by decide, by simp [ValOK, ValsOK, ScalarOK], by simp [NoNL, NoNLs]; decide, ⟨[2], by decide, by decide⟩, rfl⟩
+  · exact ⟨by decide, by decide, by simp [ValOK, ScalarOK], by simp [NoNL], ⟨[], by decide, by decide⟩, rfl⟩
+  · exact ⟨by decide, by decide, by simp [ValOK, ValsOK, ScalarOK]; decide, by simp [NoNL, NoNLs], ⟨[2], by decide, by decide⟩, rfl⟩
+  · exact ⟨by decide, by decide, by simp [ValOK, ValsOK, ScalarOK], by simp [NoNL, NoNLs], ⟨[1, 2, 2], by decide, by decide⟩, by decide⟩
+
 /-! ## Fortran `reshape` -/
 
 /-- with `order=[k,…,1]` (what the repaired exporter writes) `reshape` of the row-major element
@@ -235,24 +293,40 @@ example :
 
 /-! ## Bash -/
 
-/-- full statement: every Bash file (scalars, indexed arrays, associative arrays for rank >= 2) of
-    parameters with distinct exported names reads back as the expected symbols.  Proved below for
-    scalars and one-dimensional arrays (`…_partial`); what is missing is the associative-array form
-    (`declare -A N`, one `N[i,j]=v` line per element, `export N`), whose reader threads the symbol
-    table through the lines and needs the names to be distinct — covered by the correspondence. -/
-def C19_roundtrip_bash_statement : Prop :=
-  ∀ (exp ren : Bool) (data : List Param),
-    (∀ p ∈ data, (∀ ch ∈ rename ren p.name, bashNameChar ch = true) ∧ clean (rename ren p.name) = true ∧
-      ValOK p.kind p.value ∧ NoNL p.value ∧ ∃ sh, rectShape p.value = some sh ∧ 0 ∉ sh) →
-    (data.map (fun p => rename ren p.name)).Nodup →
-    (exportBash exp ren data).bind readBash = some (expectedBash exp ren data)
+/-- **Bash, every rank**: for every list of parameters with distinct exported names (scalars, one-
+    dimensional arrays `NAME=("w1" …)`, arrays of rank >= 2 as `declare -A NAME`, one `NAME[i,j]=v` line
+    per element, `export NAME`), every kind, any string content without newline, both `export`
+    settings: sourcing the exported file line by line gives exactly the expected variables — name,
+    scalar / indexed / associative attribute, export flag, subscripts in row-major order, values.
+    (Distinct names are necessary: see `C19_rename_counterexample`, finding `rename:collision`.) -/
+theorem C19_roundtrip_bash (exp ren : Bool) (data : List Param) (hok : ∀ p ∈ data, ParamOKBashAll ren p)
+    (hnd : (data.map (fun p => rename ren p.name)).Nodup) :
+    (exportBash exp ren data).bind readBash = some (expectedBash exp ren data) :=
+  readBash_exportBash_all exp ren data hok hnd
 
-/-- **Bash**: for every list of scalar and one-dimensional array parameters (every kind, every string
+example : let data : List Param := [
+      ⟨cs!"m", .int, 32, .arr [.arr [.leaf (.i 1), .leaf (.i 2)], .arr [.leaf (.i 3), .leaf (.i (-4))]], none, []⟩,
+      ⟨cs!"s", .str, 0, .arr [.arr [.leaf (.s (cs!"a $b"))], .arr [.leaf (.s (cs!"c\"d"))]], none, []⟩,
+      ⟨cs!"n", .int, 32, .leaf (.i 5), none, []⟩]
+    (∀ p ∈ data, ParamOKBashAll true p) ∧ (data.map (fun p => rename true p.name)).Nodup ∧
+      ((exportBash true true data).bind readBash).isSome = true := by
+  intro data
+  have hok : ∀ p ∈ data, ParamOKBashAll true p := ?_
+  · exact ⟨hok, by decide, by rw [C19_roundtrip_bash true true data hok (by decide)]; rfl⟩
+  intro p hp
+  simp only [data, List.mem_cons, List.mem_nil_iff, or_false] at hp
+  rcases hp with rfl | rfl | rfl
+  · exact ⟨by decide, by decide, by simp [NoNL, NoNLs], by simp [ValOK, ValsOK, ScalarOK], ⟨[2, 2], by decide, by decide⟩⟩
+  · exact ⟨by decide, by decide, by simp [NoNL, NoNLs]; decide, by simp [ValOK, ValsOK, ScalarOK], ⟨[2, 1], by decide, by decide⟩⟩
+  · exact ⟨by decide, by decide, by simp [NoNL], by simp [ValOK, ScalarOK], ⟨[], by decide, by decide⟩⟩
+
+/-- Bash, scalars and one-dimensional arrays only (no assumption about distinct names): for every list
+    of scalar and one-dimensional array parameters (every kind, every string
     content without newline, any length) and both `export` settings, sourcing the exported file —
     split into lines, every `[export ]NAME=word` / `NAME=("w1" "w2" …)` line read with quote removal —
     gives exactly the expected variables: name, scalar / indexed attribute, export flag, subscripts
     and values -/
-theorem C19_roundtrip_bash_partial (exp ren : Bool) (data : List Param) (hok : ∀ p ∈ data, ParamOKBash ren p) :
+theorem C19_roundtrip_bash_flat (exp ren : Bool) (data : List Param) (hok : ∀ p ∈ data, ParamOKBash ren p) :
     (exportBash exp ren data).bind readBash = some (expectedBash exp ren data) :=
   readBash_exportBash exp ren data hok
 
